@@ -90,6 +90,13 @@ def contractOf (files : List DFile) (n : Name) : Service :=
 def rootNames (cfg : Cfg) (srv : Server) : List Name :=
   fileNames (srv.files.filter fun f => (f.services.any fun s => decide (wanted cfg srv.listed s.name)))
 
+/-- the target does not serve this reflection version: the stream is refused with gRPC code `c` — at
+    `conn.Stream`, or as the status `Recv` returns for the ListServices request, whether the `Send`
+    before it returned nil or already io.EOF (both happen with real servers: the refusal races the Send) -/
+def Rejects (ep : Endpoint) (c : Nat) : Prop :=
+  ep.connErr = some c ∨
+  (ep.connErr = none ∧ (ep.listSend = .ok ∨ ep.listSend = .eof) ∧ ep.pol [] .list = .error c)
+
 /-- what one poll over `methodPriority = [a, b]` has to do, given what each version would yield
     (`ra`, `rb` = conversation, remembered hashes, outcome): see `C05_resolve_priority_spec` -/
 def resolveSpec (st : RState) (a b : Version) (ra rb : Option History × Option Snapshot × Outcome) :
